@@ -179,3 +179,92 @@ def to_jsonable(prog):
     out = dict(prog)
     out["types"] = [t.rust for t in prog["types"]]
     return out
+
+
+# ---------------------------------------------------------------- reply tables (C07-C09, C14, C18)
+
+DATA_MODES = ["raw", "raw_opt", "typed", "opt", "instantiate", "instantiate_opt", None]
+REPLY_NAMES = ["done", "failed", "both", "minted", "swap_done", "remote_instantiated", "on_transfer", "finish", "cleanup", "notify_owner"]
+
+
+def data_attr(mode):
+    return {"raw": "#[sv::data(raw)]", "raw_opt": "#[sv::data(raw, opt)]", "typed": "#[sv::data]", "opt": "#[sv::data(opt)]",
+            "instantiate": "#[sv::data(instantiate)]", "instantiate_opt": "#[sv::data(instantiate, opt)]"}[mode]
+
+
+def gen_reply_table(rng, prog, n_names=None, force_modes=None):
+    """Adds reply methods to the contract part of `prog` (valid table).  Returns the table:
+    {"names": {name: {"cover": "s|e|se|a", "payload": sig}}, "methods": [...]}, sig = "raw" or [ti...]."""
+    prog["replies"] = True
+    cpart = prog["parts"][0]
+    if n_names is None:
+        n_names = rng.choice([1, 2, 2, 3, 4])
+    names = rng.sample(REPLY_NAMES, n_names)
+    table = {"names": {}, "methods": []}
+    for nm in names:
+        cover = rng.choice(["s", "e", "se", "se", "a"])
+        c = rng.random()
+        if c < 0.35:
+            sig = "raw"
+        else:
+            sig = [intern_type(prog, T.random_type(rng)) for _ in range(rng.choice([1, 1, 2, 3]))]
+        table["names"][nm] = {"cover": cover, "payload": sig}
+    # methods: group names with the same payload signature under shared methods sometimes
+    method_names_taken = {h["name"] for h in cpart["handlers"]}
+    mcount = 0
+    modes = list(force_modes or [])
+
+    def new_method(outcome, served, sig):
+        nonlocal mcount
+        mcount += 1
+        # default naming: method named like the single handler it serves, no `handlers=`
+        explicit = True
+        mname = None
+        if len(served) == 1 and served[0] not in method_names_taken and rng.random() < 0.5:
+            mname, explicit = served[0], False
+        if mname is None:
+            mname = f"on_{outcome}_{mcount}"
+        method_names_taken.add(mname)
+        m = {"kind": "reply", "name": mname, "safe": True, "hid": f"c.reply.{mname}", "part": "c",
+             "handlers": list(served) if explicit else None, "serves": list(served),
+             "reply_on": outcome, "payload": sig, "data": None, "ret_err": "own", "args": []}  # dispatch_reply returns the method result unconverted
+        if outcome == "success":
+            m["data"] = modes.pop(0) if modes else rng.choice(DATA_MODES)
+            if m["data"] in ("typed", "opt"):
+                m["data_ti"] = intern_type(prog, rng.choice([T.STRING, T.U64, T.PT, T.SHAPE, T.vec(T.U32), T.COIN, T.UINT128, T.BOOL]))
+        pnames = ["payload"] if sig == "raw" else [f"p{i + 1}" for i in range(len(sig))]
+        m["payload_names"] = pnames
+        table["methods"].append(m)
+        return m
+
+    by_sig = {}
+    for nm, info in table["names"].items():
+        key = "raw" if info["payload"] == "raw" else tuple(info["payload"])
+        by_sig.setdefault(key, []).append(nm)
+    for key, nms in by_sig.items():
+        sig = "raw" if key == "raw" else list(key)
+        for outcome, letter in (("success", "s"), ("error", "e"), ("always", "a")):
+            want = [n for n in nms if letter in table["names"][n]["cover"]]
+            rng.shuffle(want)
+            while want:
+                k = rng.choice([1, 1, 2, len(want)])
+                served, want = want[:k], want[k:]
+                new_method(outcome, served, sig)
+    rng.shuffle(table["methods"])
+    cpart["handlers"] += table["methods"]
+    prog["reply_table"] = table
+    return table
+
+
+def reply_method_for(table, name, ok):
+    """The method that must run for (name, outcome) or None."""
+    want = ("success", "always") if ok else ("error", "always")
+    for m in table["methods"]:
+        if name in m["serves"] and m["reply_on"] in want:
+            return m
+    return None
+
+
+def expected_reply_on(table, name):
+    c = table["names"][name]["cover"]
+    return {"s": "success", "e": "error", "se": "always", "a": "always"}[c]
